@@ -120,7 +120,9 @@ pub fn is_vint(val: u64) -> bool {
         return false;
     }
 
-    (val.ilog2() % 7) == 0
+    // The marker bit of an n-byte id sits at bit 7n, and the id must occupy exactly n bytes
+    let marker = val.ilog2();
+    (marker % 7) == 0 && marker / 7 == (marker / 8) + 1
 }
 
 ///
